@@ -159,39 +159,50 @@ harness!(c18_duration_mul_f64_integer_factor, unwind = 3, |s| {
     v_cover!(k < 0, "negative factor reachable");
 });
 
-// Duration::from_<unit>(x) and the f64 TimeUnits helpers are x * Unit::<unit>: same constructor, same integer (recording
-// stubs under Kani as above; natively the resulting parts are compared)
+// Duration::from_<unit>(x) and the f64 TimeUnits helpers are, literally, x * Unit::<unit>: under Kani `Unit * f64` itself is
+// replaced by a recording stub, so the claim is "the helper hands exactly (that unit, that x) to the multiplication"
+// (no float arithmetic left in the query); what the multiplication does is the subject of the harnesses above.
+// Natively the resulting parts are compared.
 #[cfg(kani)]
-fn rec_of(f: impl FnOnce() -> Duration) -> (u8, i128, (i16, u64)) {
+static mut REC_UNIT: u8 = 255;
+#[cfg(kani)]
+static mut REC_BITS: u64 = 0;
+#[cfg(kani)]
+fn stub_unit_mul_f64(u: Unit, q: f64) -> Duration {
     unsafe {
-        REC_KIND = 0;
-        REC_VAL = 0;
+        REC_UNIT = u8::from(u);
+        REC_BITS = q.to_bits();
     }
-    let d = f();
-    unsafe { (REC_KIND, REC_VAL, d.to_parts()) }
+    Duration::ZERO
+}
+#[cfg(kani)]
+fn hands_over(f: impl FnOnce() -> Duration, u: Unit, x: f64) -> bool {
+    unsafe {
+        REC_UNIT = 255;
+    }
+    let _ = f();
+    unsafe { REC_UNIT == u8::from(u) && REC_BITS == x.to_bits() }
 }
 #[cfg(not(kani))]
-fn rec_of(f: impl FnOnce() -> Duration) -> (u8, i128, (i16, u64)) {
-    (0, 0, f().to_parts())
+fn hands_over(f: impl FnOnce() -> Duration, u: Unit, x: f64) -> bool {
+    f().to_parts() == (u * x).to_parts()
 }
 
 harness_stubbed!(c18_from_unit_constructors, unwind = 2,
-    stubs = [(crate::duration::Duration::from_truncated_nanoseconds, crate::verif::c18::stub_from_truncated),
-             (crate::duration::Duration::from_total_nanoseconds, crate::verif::c18::stub_from_total)],
+    stubs = [(<crate::timeunits::Unit as core::ops::Mul<f64>>::mul, crate::verif::c18::stub_unit_mul_f64)],
     |s| {
     use crate::TimeUnits;
     let x = s.f64();
     s.assume(x.is_finite());
-    v_assert!(s, rec_of(|| Duration::from_days(x)) == rec_of(|| x * Unit::Day), "from_days");
-    v_assert!(s, rec_of(|| Duration::from_hours(x)) == rec_of(|| x * Unit::Hour), "from_hours");
-    v_assert!(s, rec_of(|| Duration::from_seconds(x)) == rec_of(|| x * Unit::Second), "from_seconds");
-    v_assert!(s, rec_of(|| Duration::from_milliseconds(x)) == rec_of(|| x * Unit::Millisecond), "from_milliseconds");
-    v_assert!(s, rec_of(|| Duration::from_microseconds(x)) == rec_of(|| x * Unit::Microsecond), "from_microseconds");
-    v_assert!(s, rec_of(|| Duration::from_nanoseconds(x)) == rec_of(|| x * Unit::Nanosecond), "from_nanoseconds");
-    v_assert!(s, rec_of(|| x.centuries()) == rec_of(|| x * Unit::Century) && rec_of(|| x.weeks()) == rec_of(|| x * Unit::Week)
-        && rec_of(|| x.days()) == rec_of(|| x * Unit::Day) && rec_of(|| x.hours()) == rec_of(|| x * Unit::Hour)
-        && rec_of(|| x.minutes()) == rec_of(|| x * Unit::Minute) && rec_of(|| x.seconds()) == rec_of(|| x * Unit::Second)
-        && rec_of(|| x.milliseconds()) == rec_of(|| x * Unit::Millisecond) && rec_of(|| x.microseconds()) == rec_of(|| x * Unit::Microsecond)
-        && rec_of(|| x.nanoseconds()) == rec_of(|| x * Unit::Nanosecond), "f64 TimeUnits helpers");
+    v_assert!(s, hands_over(|| Duration::from_days(x), Unit::Day, x), "from_days(x) = x * Unit::Day");
+    v_assert!(s, hands_over(|| Duration::from_hours(x), Unit::Hour, x), "from_hours(x) = x * Unit::Hour");
+    v_assert!(s, hands_over(|| Duration::from_seconds(x), Unit::Second, x), "from_seconds(x) = x * Unit::Second");
+    v_assert!(s, hands_over(|| Duration::from_milliseconds(x), Unit::Millisecond, x), "from_milliseconds(x) = x * Unit::Millisecond");
+    v_assert!(s, hands_over(|| Duration::from_microseconds(x), Unit::Microsecond, x), "from_microseconds(x) = x * Unit::Microsecond");
+    v_assert!(s, hands_over(|| Duration::from_nanoseconds(x), Unit::Nanosecond, x), "from_nanoseconds(x) = x * Unit::Nanosecond");
+    v_assert!(s, hands_over(|| x.centuries(), Unit::Century, x) && hands_over(|| x.weeks(), Unit::Week, x) && hands_over(|| x.days(), Unit::Day, x)
+        && hands_over(|| x.hours(), Unit::Hour, x) && hands_over(|| x.minutes(), Unit::Minute, x) && hands_over(|| x.seconds(), Unit::Second, x)
+        && hands_over(|| x.milliseconds(), Unit::Millisecond, x) && hands_over(|| x.microseconds(), Unit::Microsecond, x)
+        && hands_over(|| x.nanoseconds(), Unit::Nanosecond, x), "f64 TimeUnits helpers");
     v_cover!(x < 0.0 && x != x.trunc(), "negative non-integer reachable");
 });
